@@ -156,7 +156,7 @@ func parseIndexSection(sectionContents []byte, sectionsStart uint64, sos []secti
 	}
 	respSectionOffset := sectionsStart + respSectionRelOffset
 	makeRelativeToStream := func(offset, length uint64) (uint64, uint64, error) {
-		if offset+length > respso.Length {
+		if offset > respso.Length || length > respso.Length-offset {
 			return 0, 0, errors.New("bundle.index: response length out-of-range")
 		}
 		return respSectionOffset + offset, length, nil
@@ -217,7 +217,7 @@ func parseIndexSectionWithVariants(sectionContents []byte, sectionsStart uint64,
 	}
 	respSectionOffset := sectionsStart + respSectionRelOffset
 	makeRelativeToStream := func(offset, length uint64) (uint64, uint64, error) {
-		if offset+length > respso.Length {
+		if offset > respso.Length || length > respso.Length-offset {
 			return 0, 0, errors.New("bundle.index: response length out-of-range")
 		}
 		return respSectionOffset + offset, length, nil
@@ -486,6 +486,16 @@ func loadMetadata(bs []byte) (*meta, error) {
 
 	if len(sos) == 0 || sos[len(sos)-1].Name != "responses" {
 		return nil, &LoadMetadataError{fmt.Errorf("bundle: Last section is not \"responses\""), FormatError, fallbackURL}
+	}
+
+	// Every section, known or not, must lie inside the input. This also
+	// guarantees that the offset arithmetic below cannot overflow.
+	sectionsEnd := sectionsStart
+	for _, so := range sos {
+		if so.Length > uint64(len(bs))-sectionsEnd {
+			return nil, &LoadMetadataError{fmt.Errorf("bundle: section %q (length %d) out-of-range.", so.Name, so.Length), FormatError, fallbackURL}
+		}
+		sectionsEnd += so.Length
 	}
 
 	meta := &meta{
